@@ -29,10 +29,13 @@ class Upstream:
                     time.sleep(int(self.path.split("=", 1)[1]) / 1000.0)
                 code = 500 if port in outer.sick else 200
                 body = b"ok"
-                self.send_response(code)
-                self.send_header("Content-Length", str(len(body)))
-                self.end_headers()
-                self.wfile.write(body)
+                try:
+                    self.send_response(code)
+                    self.send_header("Content-Length", str(len(body)))
+                    self.end_headers()
+                    self.wfile.write(body)
+                except OSError:
+                    pass  # the proxy gave up on this request
 
             def log_message(self, *a):
                 pass
